@@ -390,7 +390,7 @@ def work(shard, seed, tier):
                        sample={"vs": [list(v) for v in vs], "probes": len(res)})
 
     campaign(acc, _strategy(), execute, n, seed * 1000 + shard["i"],
-             to_case=lambda v: {"random": v}, budget=Budget(30 if tier == "quick" else 500))
+             to_case=lambda v: {"random": v}, budget=Budget(120 if tier == "quick" else 900))
     return acc
 
 
